@@ -1792,8 +1792,11 @@ sc_io_read_at (sc_MPI_File mpifile, sc_MPI_Offset offset, void *ptr,
   /* set the file pointer back after reading */
   errno = 0;
   mpiret = fseek (mpifile->file, pos, SEEK_SET);
-  retval = sc_io_error_class (errno, &errcode);
-  SC_CHECK_MPI (retval);
+  if (errcode == sc_MPI_SUCCESS) {
+    /* the error of a partial transfer is not replaced by this result */
+    retval = sc_io_error_class (errno, &errcode);
+    SC_CHECK_MPI (retval);
+  }
 
   return errcode;
 #endif
@@ -2077,8 +2080,11 @@ sc_io_write_at (sc_MPI_File mpifile, sc_MPI_Offset offset,
   /* set the file pointer back after writing */
   errno = 0;
   mpiret = fseek (mpifile->file, pos, SEEK_SET);
-  retval = sc_io_error_class (errno, &errcode);
-  SC_CHECK_MPI (retval);
+  if (errcode == sc_MPI_SUCCESS) {
+    /* the error of a partial transfer is not replaced by this result */
+    retval = sc_io_error_class (errno, &errcode);
+    SC_CHECK_MPI (retval);
+  }
 
   return errcode;
 #endif
